@@ -64,7 +64,12 @@ def showState (s : State) : String :=
       s!"b{c}.{b.nonce}={b.g}:" ++ ",".intercalate ((srt b.txs).map fun t => s!"{t.id}/{t.amount}/{t.fee}")) ++
     (cs.calls.mergeSort (fun a b => a.nonce ≤ b.nonce)).map (fun cl =>
       s!"c{c}.{cl.nonce}=u{cl.sender}:u{cl.refund}:{showTokens cl.tokens}:{if cl.fromMsg then 1 else 0}")
-  " ".intercalate (bals ++ sups ++ chains)
+  -- ghost counters and the external contracts' last executed batch nonce per (chain, token)
+  let nz := fun (pre : String) (f : Nat → Nat) => (List.range nGroups).filterMap fun g =>
+    if f g == 0 then none else some s!"{pre}{g}={f g}"
+  let ghost := nz "D.g" s.deposited ++ nz "W.g" s.withdrawn ++
+    (List.range nChains).flatMap fun c => nz s!"xl{c}." (s.chains c).extLast
+  " ".intercalate (bals ++ sups ++ chains ++ ghost)
 
 def parseTokens (w : String) : Option (List (Nat × Nat)) :=
   (w.splitOn "+").mapM fun t =>
@@ -83,7 +88,8 @@ def parseOp (ws : List String) : Option Op :=
   | ["cancel", c, id, u] => do pure (.cancel (← c.toNat?) (← id.toNat?) (← u.toNat?))
   | ["xcancel", c, id, u] => do pure (.cancel (← c.toNat?) (← id.toNat?) (← u.toNat?))
   | ["incfee", c, id, u, g, n] => do pure (.incfee (← c.toNat?) (← id.toNat?) (← u.toNat?) (← g.toNat?) (← n.toNat?))
-  | ["batch", c, g, bf] => do pure (.batch (← c.toNat?) (← g.toNat?) (← bf.toNat?))
+  | ["batch", c, g, bf, mf, ao] => do
+    pure (.batch (← c.toNat?) (← g.toNat?) (← bf.toNat?) (← mf.toNat?) (ao == "1"))
   | ["executed", c, g, n] => do pure (.executed (← c.toNat?) (← g.toNat?) (← n.toNat?))
   | ["btimeout", c, g, n] => do pure (.btimeout (← c.toNat?) (← g.toNat?) (← n.toNat?))
   | ["bcout", c, u, r, pre, ts] => do pure (.bcout (← c.toNat?) (← u.toNat?) (← r.toNat?) (← parseTokens ts) (pre == "1"))
